@@ -37,18 +37,38 @@ EFFECTS = {
     "*self.ptr.write(d)": ".ptrWrite",
     "*self.ptr.read()": ".ptrRead",
     "*self.ptr.copy(d)": ".ptrCopy",
+    "self.ptr.read()": ".ptrRead", "_=self.ptr.read()": ".ptrRead",
+    "self.waker=KanalWaker::Async(waker.clone())": ".storeWaker",      # register_waker: clone the task's waker into the signal
+    "self.ptr=ptr": ".storePtr",                                        # set_ptr
 }
 ASKB = {
     "Instant::now()<until": ".beforeDeadline",
     "get_parallelism()>1": ".parGt1",
     "get_parallelism()==1": ".parEq1",
+    "w.will_wake(waker)": ".stdWillWake",                              # `Waker::will_wake` of the standard library
 }
 WANTED = {
-    "signal.rs": {"Signal": ["poll", "async_blocking_wait", "wait", "wait_timeout", "is_terminated", "wake", "send", "send_copy", "recv", "terminate"]},
+    "signal.rs": {"Signal": ["poll", "async_blocking_wait", "wait", "wait_timeout", "is_terminated", "wake", "send", "send_copy", "recv", "terminate",
+                             "will_wake", "register_waker", "set_ptr", "assume_init", "load_and_drop", "new_async", "new_async_ptr", "new_sync"]},
     "mutex.rs": {"RawMutexLock": ["lock_no_inline"], "RawMutex_RawMutexLock": ["lock", "try_lock", "unlock"]},
     "backoff.rs": {"top": ["spin_cond"]},
 }
-RET = {"Poll<bool>": "Option Bool", "bool": "Bool", "": "Unit", "T": "Unit"}
+RET = {"Poll<bool>": "Option Bool", "bool": "Bool", "": "Unit", "T": "Unit", "Self": "Unit"}
+WAKER_INIT = {"KanalWaker::None": ".none", "KanalWaker::Sync(None.into())": ".sync"}
+
+
+def lower_ctor(fn):
+    """`Signal::new_*`: the initial word and waker kind from the struct literal"""
+    ast = P(fn["toks"]).block()
+    lit = ast[2]
+    if ast[1] or lit is None or lit[0] != "struct" or len(lit) != 3: raise Unsupported("constructor body")
+    f = dict(lit[2])
+    if set(f) != {"state", "ptr", "waker"}: raise Unsupported("fields of Signal: " + str(sorted(f)))
+    m = re.match(r"AtomicU8::new\((\w+)\)$", show(f["state"]))
+    if not m or m.group(1) not in CONSTS: raise Unsupported("initial state " + show(f["state"]))
+    wk = WAKER_INIT.get(show(f["waker"]))
+    if wk is None: raise Unsupported("initial waker " + show(f["waker"]))
+    return f"({CONSTS[m.group(1)]}, {wk})"
 
 
 class V:
@@ -354,7 +374,8 @@ def main():
         src = strip_verif(strip_comments(open(os.path.join(src_dir, f)).read()))
         for fn in find_functions(src, f):
             if fn["ctx"] in want and fn["name"] in want[fn["ctx"]]: fns.append(fn)
-    order = ["try_lock", "unlock", "spin_cond", "lock_no_inline", "lock", "poll", "is_terminated", "async_blocking_wait", "wait", "wait_timeout",
+    order = ["new_async", "new_async_ptr", "new_sync", "will_wake", "register_waker", "set_ptr", "assume_init", "load_and_drop",
+             "try_lock", "unlock", "spin_cond", "lock_no_inline", "lock", "poll", "is_terminated", "async_blocking_wait", "wait", "wait_timeout",
              "wake", "send", "send_copy", "recv", "terminate"]
     fns.sort(key=lambda f: order.index(f["name"]) if f["name"] in order else 99)
     header = ["/-", "  GENERATED by extract/rs2proto.py from /repo/src/{signal,mutex,backoff}.rs on every run — do not edit.",
@@ -367,6 +388,15 @@ def main():
         out, names, problems, ranges = list(header), [], [], {}
         for f in fns:
             L = LowerP(f, None); nm = name_of(f)
+            if f["name"].startswith("new_"):
+                try: body = lower_ctor(f)
+                except (Unsupported, SyntaxError, IndexError, KeyError, TypeError) as ex:
+                    problems.append(f"{nm}: {type(ex).__name__}: {ex}"); body = "(0, .none)"
+                if nm in stubbed: problems.append(f"{nm}: does not type-check ({stubbed[nm]})"); body = "(0, .none)"
+                names.append(nm); start = len(out) + 1
+                out.append(f"/-- `Signal::{f['name']}` (signal.rs): initial state word and waker kind -/")
+                out.append(f"def {nm} : Nat × WakerKind := {body}"); out.append("")
+                ranges[nm] = (start, len(out)); continue
             try: body = L.run()
             except (Unsupported, SyntaxError, StopIteration, IndexError, KeyError, TypeError, AttributeError) as ex:
                 problems.append(f"{nm}: {type(ex).__name__}: {ex}"); body = None; L.rt = RET.get(f["ret"], "Unit")
